@@ -227,6 +227,56 @@ func findSearchLoops(c *Ctx) []searchLoop {
 	return out
 }
 
+// setOnlyOnSuccess: every non-nil value that can reach v inside the loop is assigned behind a success edge of the trial decryption.
+func setOnlyOnSuccess(p *eng.Prog, v ssa.Value, l *eng.Loop, succ eng.EdgeSet, seen map[ssa.Value]bool) bool {
+	if seen[v] {
+		return true
+	}
+	seen[v] = true
+	switch x := v.(type) {
+	case *ssa.Const:
+		return x.IsNil()
+	case *ssa.Phi:
+		for i, e := range x.Edges {
+			if cst, ok := e.(*ssa.Const); ok && cst.IsNil() {
+				continue
+			}
+			if _, isPhi := e.(*ssa.Phi); isPhi {
+				if !setOnlyOnSuccess(p, e, l, succ, seen) {
+					return false
+				}
+				continue
+			}
+			if i >= len(x.Block().Preds) {
+				return false
+			}
+			pb := x.Block().Preds[i]
+			if !l.Body[pb] || !eng.CutFrom(l.Header, pb, succ) {
+				return false
+			}
+		}
+		return true
+	case *ssa.UnOp:
+		if x.Op != token.MUL {
+			return false
+		}
+		cell := eng.CellRoot(x.X)
+		if cell == nil {
+			return false
+		}
+		for _, st := range p.CellStores(cell) {
+			if cst, ok := st.Val.(*ssa.Const); ok && cst.IsNil() {
+				continue
+			}
+			if st.Parent() != l.Header.Parent() || !l.Body[st.Block()] || !eng.CutFrom(l.Header, st.Block(), succ) {
+				return false
+			}
+		}
+		return true
+	}
+	return false
+}
+
 // C01.SEARCH
 func ruleSearch(c *Ctx, rule string, minLoops int) {
 	p := c.P
@@ -257,6 +307,17 @@ func ruleSearch(c *Ctx, rule string, minLoops int) {
 				}
 			}
 			ok := succ[e] || eng.CutFrom(sl.loop.Header, e.From, succ)
+			if !ok {
+				// `for …; i < n && match == nil; …`: left when the match variable is set, and it is set only after a successful Unpack
+				if iff, isIf := e.From.Instrs[len(e.From.Instrs)-1].(*ssa.If); isIf {
+					if x, trueNonNil, isNil := eng.NilCompare(iff.Cond); isNil {
+						exitOnNonNil := (e.From.Succs[0] == e.To) == trueNonNil
+						if exitOnNonNil && setOnlyOnSuccess(p, x, sl.loop, succ, map[ssa.Value]bool{}) {
+							ok = true
+						}
+					}
+				}
+			}
 			c.Check(rule, fmt.Sprintf("%s:exit#%d:only-on-match", key, i), blockPos(p, e.From), ok, "the key search can stop (break or return) after a key that failed to decrypt: keys later in the list can never authenticate")
 		}
 		// the loop visits every element: index is the range induction variable starting at 0/-1 with step 1 (range over slice) — accept only range loops
@@ -449,7 +510,27 @@ func ruleKeyBytes(c *Ctx) {
 			}
 			c.CheckAt("FIXEDREAD", short(f)+":search-gets-the-bytes-read", sc, same, "the key search is not given the buffer that io.ReadFull filled")
 		} else {
-			c.Undecided("FIXEDREAD", short(f)+":search-call", c.P.Pos(f.Pos()), "the key finder calls no function that performs the trial decryption")
+			// the search loop is inline in the finder
+			nIn := 0
+			for _, sl := range findSearchLoops(c) {
+				if sl.fn != f {
+					continue
+				}
+				nIn++
+				c.CheckAt("FIXEDREAD", short(f)+":read-before-search", sl.unpack, call.Parent() == f && eng.Dominates(call, sl.unpack), "the key search runs before the fixed-size read completed")
+				same := c.P.AnyFrom(sl.unpack.Call.Args[1], eng.Deep, func(v ssa.Value) bool {
+					for _, b := range c.P.Origins(call.Call.Args[1], eng.Deep) {
+						if v == b {
+							return true
+						}
+					}
+					return false
+				})
+				c.CheckAt("FIXEDREAD", short(f)+":search-gets-the-bytes-read", sl.unpack, same, "the key search is not given the buffer that io.ReadFull filled")
+			}
+			if nIn == 0 {
+				c.Undecided("FIXEDREAD", short(f)+":search-call", c.P.Pos(f.Pos()), "the key finder neither calls a function that performs the trial decryption nor contains the search loop")
+			}
 		}
 	}
 }
@@ -733,8 +814,37 @@ func ruleSaltSlice(c *Ctx, rule string) {
 	n := 0
 	for _, kf := range findKeyFinders(c) {
 		f := kf.f
+		// the entry that matched: a result of the search call, or — when the search loop is inline — the entry whose key the
+		// trial decryption was given
+		var inlineKeys []ssa.Value
+		if kf.search == nil {
+			for _, sl := range findSearchLoops(c) {
+				if sl.fn == f {
+					if t, fl, base, ok := eng.FieldLoad(p.Resolve(sl.unpack.Call.Args[2])); ok && t == "service.CipherEntry" && fl == "CryptoKey" {
+						inlineKeys = append(inlineKeys, p.Origins(base, eng.Plain)...)
+					}
+				}
+			}
+		}
 		isMatched := func(v ssa.Value) bool {
-			return kf.search != nil && p.AnyFrom(v, eng.OriginOpts{ThroughConvert: true, ThroughFieldLoad: true}, func(x ssa.Value) bool { return eng.ResultOf(x, kf.search, -1) })
+			if kf.search != nil {
+				return p.AnyFrom(v, eng.OriginOpts{ThroughConvert: true, ThroughFieldLoad: true}, func(x ssa.Value) bool { return eng.ResultOf(x, kf.search, -1) })
+			}
+			for _, o := range p.Origins(v, eng.Plain) {
+				if cst, ok := o.(*ssa.Const); ok && cst.IsNil() {
+					continue
+				}
+				hit := false
+				for _, k := range inlineKeys {
+					if o == k {
+						hit = true
+					}
+				}
+				if !hit {
+					return false
+				}
+			}
+			return len(inlineKeys) > 0
 		}
 		for _, r := range eng.Returns(f) {
 			if len(r.Results) == 0 || !eng.IsZeroValue(r.Results[len(r.Results)-1]) {
